@@ -1,6 +1,6 @@
 (* C02 — Rendered SQL is one confined boolean expression; user text only in literals.  (scanner-level lemmas; see DESIGN 6/C02) *)
 Require Import Parser Render PgModel SqlFrag.
-Require PgQuote PgIdent SqlParse SqlSemProof SqlEndToEnd.
+Require PgQuote PgIdent SqlParse SqlSemProof SqlEndToEnd SqlProvenance.
 From Coq Require Import List String Ascii.
 Import ListNotations.
 
@@ -36,7 +36,16 @@ Proof.
   intros o2 e ts a s T Ok Nm R. split; [exact (SqlEndToEnd.render_reads o2 e ts a s T Ok Nm R)|exact (SqlSemProof.tr_allowed e ts a T)].
 Qed.
 
+(* provenance, for every tree of the fragment: in the expression PostgreSQL reads, every column reference is a field name of the
+   query and every string constant is a string value of the query (a wildcard pattern after the fixed translation) *)
+Theorem C02_fragment_columns_and_constants_come_from_the_query : forall (e : Parser.expr) (ts : list tok) (a : ast),
+  tr e = Some (ts, a) ->
+  (forall c, In c (SqlProvenance.cols_of a) -> exists f, In f (SqlProvenance.fields_of e) /\ c = str f) /\
+  (forall s, In s (SqlProvenance.strs_of a) -> exists v, In v (SqlProvenance.strvals_of e) /\ s = str v).
+Proof. exact SqlProvenance.tr_provenance. Qed.
+
 Print Assumptions C02_string_value_stays_in_its_literal.
+Print Assumptions C02_fragment_columns_and_constants_come_from_the_query.
 Print Assumptions C02_rendered_fragment_sql_is_one_confined_expression.
 Print Assumptions C02_fragment_sql_is_one_confined_expression.
 Print Assumptions C02_field_name_is_one_identifier.
